@@ -60,7 +60,7 @@ Definition tables_ok : bool :=
           match lookup p unit_prefix_exponent with
           | Some e => (e =? spec_exp p) && (0 <=? e) &&
                       match effective_base (fst sp) base (Some p) with
-                      | Some b => (b =? spec_base (fst sp) p) && is_some_finite (float_of_Z (b ^ e))
+                      | Some b => (b =? spec_base (fst sp) p) && is_some_finite (float_of_Z (b ^ e)) && (8 <=? b ^ e)
                       | None => false
                       end
           | None => false
@@ -107,7 +107,8 @@ Lemma table_facts u prefixes base rx p :
   In (u, prefixes) spec_systems -> lookup u unit_system_info = Some (base, rx) -> In p prefixes ->
   lookup p unit_prefix_exponent = Some (spec_exp p) /\ 0 <= spec_exp p /\
   effective_base u base (Some p) = Some (spec_base u p) /\
-  exists x, float_of_Z (spec_base u p ^ spec_exp p) = Some x /\ f_is_finite x = true.
+  (exists x, float_of_Z (spec_base u p ^ spec_exp p) = Some x /\ f_is_finite x = true) /\
+  8 <= spec_base u p ^ spec_exp p.
 Proof.
   intros H L Hp. pose proof tables_ok_true as T. unfold tables_ok in T. rewrite forallb_forall in T.
   specialize (T _ H). cbn [fst snd] in T. rewrite L in T. rewrite forallb_forall in T. specialize (T _ Hp).
@@ -117,6 +118,7 @@ Proof.
   match goal with H : (e =? _) = true |- _ => apply Z.eqb_eq in H; subst e end.
   match goal with H : (b =? _) = true |- _ => apply Z.eqb_eq in H; subst b end.
   split; [reflexivity|]. split; [lia|]. split; [reflexivity|].
+  split; [|lia].
   unfold is_some_finite in *. destruct (float_of_Z (spec_base u p ^ spec_exp p)) as [x|]; [|discriminate].
   exists x. auto.
 Qed.
@@ -170,7 +172,7 @@ Proof.
   destruct pre as [|c p']; [cbn; eauto|].
   destruct Hp as [Hp|Hp]; [discriminate|].
   destruct (system_facts u prefixes HS) as [base [rx [L _]]].
-  destruct (table_facts u prefixes base rx (c :: p') HS L Hp) as [_ [_ [_ [x [Fx _]]]]].
+  destruct (table_facts u prefixes base rx (c :: p') HS L Hp) as [_ [_ [_ [[x [Fx _]] _]]]].
   unfold f_mul_int. rewrite Fx. cbn. eauto.
 Qed.
 
@@ -319,6 +321,194 @@ Proof.
   rewrite M in M'. injection M' as <- <-. rewrite G in G2.
   destruct pre as [|c p']; [discriminate|]. injection G2 as ->.
   destruct Hp as [Hp|Hp]; [discriminate|].
-  destruct (table_facts u prefixes base rx (c :: p') HS L Hp) as [T1 [_ [T3 T4]]]. auto.
+  destruct (table_facts u prefixes base rx (c :: p') HS L Hp) as [T1 [_ [T3 [T4 _]]]]. auto.
 Qed.
 
+
+(* ---------- exactness when everything is representable ---------- *)
+
+(* the binary64 whose value is exactly the integer (-1)^neg * a, for a < 2^53 *)
+Definition float_of_small_int (neg : bool) (a : positive) : float64 := normal neg a 0.
+
+Lemma normal_of_odd_part s p : dig p <= 53 ->
+  normal s (fst (odd_part p)) (snd (odd_part p)) = normal s p 0.
+Proof.
+  intros D. pose proof (odd_part_spec p) as S. destruct (odd_part p) as [q j]. destruct S as [Hj [Hp _]].
+  cbn [fst snd]. assert (E : p = Z.to_pos (Zpos q * 2 ^ j)) by (rewrite <- Hp; reflexivity).
+  rewrite E at 1. symmetry. apply normal_scale; [exact Hj|].
+  rewrite <- (dig_shift q j Hj), <- E. exact D.
+Qed.
+
+(* it is what float(int) gives *)
+Lemma float_of_small_int_spec (neg : bool) a : Zpos a < 2 ^ 53 ->
+  float_of_Z (if neg then Zneg a else Zpos a) = Some (float_of_small_int neg a).
+Proof.
+  intros H. assert (D : dig a <= 53) by (apply dig_le_of_lt; lia).
+  unfold float_of_Z, f_normalize, float_of_small_int.
+  destruct neg; cbn [binary_normalize];
+    change fprec with 53; change femax with 1024;
+    rewrite round_odd_part by (try apply repr53b_of_lt; lia); rewrite normal_of_odd_part by exact D; reflexivity.
+Qed.
+
+Lemma repr53b_xO p : repr53b p~0 = repr53b p.
+Proof. unfold repr53b. cbn [odd_part]. destruct (odd_part p). reflexivity. Qed.
+
+Definition exact_hyps (u : str) (prefixes : list str) (sg ds pre un nl : str) (n F a : positive) : Prop :=
+  In (u, prefixes) spec_systems /\
+  (sg = [] \/ sg = [43%N] \/ sg = [45%N]) /\
+  forallb c_digit ds = true /\ ds <> [] /\
+  (pre = [] \/ In pre prefixes) /\ In un units3 /\ (nl = [] \/ nl = [10%N]) /\
+  dvalN ds 0 = Npos n /\
+  Zpos F = match pre with [] => 1 | _ => spec_base u pre ^ spec_exp pre end /\
+  repr53b F = true /\
+  Zpos n * Zpos F = Zpos a * (if is_bit un then 8 else 1) /\
+  Zpos a < 2 ^ 53.
+
+Lemma ex_prod u prefixes sg ds pre un nl n F a (HH : exact_hyps u prefixes sg ds pre un nl n F a) : Zpos n * Zpos F = Zpos a * 2 ^ (if is_bit un then 3 else 0).
+Proof.
+  destruct HH as [_ [_ [_ [_ [_ [_ [_ [_ [_ [_ [Hprod _]]]]]]]]]]].
+  rewrite Hprod. destruct (is_bit un); reflexivity.
+Qed.
+
+Lemma ex_F_ge u prefixes sg ds pre un nl n F a (HH : exact_hyps u prefixes sg ds pre un nl n F a) : pre <> [] -> 8 <= Zpos F.
+Proof.
+  pose proof HH as HH0. destruct HH as [HS [Hsg [Hds [Hne [Hpre [Hun [Hnl [Hn [HF [HrF [Hprod Ha]]]]]]]]]]].
+  set (neg := beq sg [45%N]) in *. set (k := if is_bit un then 3 else 0) in *.
+  intros Hp. destruct pre as [|c p'] eqn:E; [congruence|]. rewrite HF.
+  destruct Hpre as [Hq|Hq]; [discriminate|].
+  destruct (system_facts u prefixes HS) as [base [rx [L _]]].
+  destruct (table_facts u prefixes base rx (c :: p') HS L Hq) as [_ [_ [_ [_ T]]]]. exact T.
+Qed.
+
+Lemma ex_bounds u prefixes sg ds pre un nl n F a (HH : exact_hyps u prefixes sg ds pre un nl n F a) : Zpos n < 2 ^ 56 /\ Zpos F < 2 ^ 56.
+Proof.
+  pose proof HH as HH0. destruct HH as [HS [Hsg [Hds [Hne [Hpre [Hun [Hnl [Hn [HF [HrF [Hprod Ha]]]]]]]]]]].
+  set (neg := beq sg [45%N]) in *. set (k := if is_bit un then 3 else 0) in *.
+  pose proof (ex_prod _ _ _ _ _ _ _ _ _ _ HH0) as P. change (if is_bit un then 3 else 0) with k in P. assert (2 ^ k <= 8) by (unfold k; destruct (is_bit un); cbn; lia).
+  assert (0 < 2 ^ k) by (unfold k; destruct (is_bit un); cbn; lia).
+  change (2 ^ 56) with (2 ^ 53 * 8). set (X := 2 ^ k) in *. clearbody X.
+  assert (Zpos n <= Zpos n * Zpos F) by nia. assert (Zpos F <= Zpos n * Zpos F) by nia.
+  assert (Zpos a * X <= Zpos a * 8) by nia. split; lia.
+Qed.
+
+Lemma ex_repr_n u prefixes sg ds pre un nl n F a (HH : exact_hyps u prefixes sg ds pre un nl n F a) : repr53b n = true.
+Proof.
+  pose proof HH as HH0. destruct HH as [HS [Hsg [Hds [Hne [Hpre [Hun [Hnl [Hn [HF [HrF [Hprod Ha]]]]]]]]]]].
+  set (neg := beq sg [45%N]) in *. set (k := if is_bit un then 3 else 0) in *.
+  destruct pre as [|c p'] eqn:E.
+  - assert (F1 : Zpos F = 1) by exact HF. pose proof (ex_prod _ _ _ _ _ _ _ _ _ _ HH0) as P. change (if is_bit un then 3 else 0) with k in P. rewrite F1 in P. unfold k in P.
+    destruct (is_bit un).
+    + assert (En : n = (a~0~0~0)%positive) by (apply Pos2Z.inj; change (Z.pos a~0~0~0) with (8 * Z.pos a); change (2 ^ 3) with 8 in P; lia).
+      rewrite En, !repr53b_xO. apply repr53b_of_lt. exact Ha.
+    + apply repr53b_of_lt. change (2 ^ 0) with 1 in P. lia.
+  - assert (G : 8 <= Zpos F) by (apply (ex_F_ge _ _ _ _ _ _ _ _ _ _ HH0); discriminate).
+    apply repr53b_of_lt. pose proof (ex_prod _ _ _ _ _ _ _ _ _ _ HH0) as P. change (if is_bit un then 3 else 0) with k in P.
+    assert (2 ^ k <= 8) by (unfold k; destruct (is_bit un); cbn; lia). nia.
+Qed.
+
+(* float(number) *)
+Lemma ex_magnitude u prefixes sg ds pre un nl n F a (HH : exact_hyps u prefixes sg ds pre un nl n F a) : py_float_of_str (sg ++ ds) = Some (normal (beq sg [45%N]) (fst (odd_part n)) (snd (odd_part n))).
+Proof.
+  pose proof HH as HH0. destruct HH as [HS [Hsg [Hds [Hne [Hpre [Hun [Hnl [Hn [HF [HrF [Hprod Ha]]]]]]]]]]].
+  set (neg := beq sg [45%N]) in *. set (k := if is_bit un then 3 else 0) in *.
+  rewrite (float_of_signed_ascii_digits sg ds Hsg Hds Hne). fold neg. rewrite Hn.
+  unfold f_of_decimal. replace (400 <=? 0) with false by reflexivity.
+  replace (Z.of_nat (length ds) + 0 <=? -400) with false by lia.
+  replace (0 <=? 0) with true by reflexivity.
+  change (Z.to_pos (10 ^ 0)) with 1%positive. rewrite Pos.mul_1_r. unfold f_round. f_equal.
+  change fprec with 53. change femax with 1024.
+  apply round_odd_part; [exact (ex_repr_n _ _ _ _ _ _ _ _ _ _ HH0)|]. apply dig_le_of_lt; [lia|]. destruct (ex_bounds _ _ _ _ _ _ _ _ _ _ HH0). lia.
+Qed.
+
+Lemma ex_result u prefixes sg ds pre un nl n F a (HH : exact_hyps u prefixes sg ds pre un nl n F a) :
+  exists r, spec_eval u (sg ++ ds) pre un false = Ok (NFloat r) /\ r = float_of_small_int (beq sg [45%N]) a.
+Proof.
+  pose proof HH as HH0. destruct HH as [HS [Hsg [Hds [Hne [Hpre [Hun [Hnl [Hn [HF [HrF [Hprod Ha]]]]]]]]]]].
+  set (neg := beq sg [45%N]) in *. set (k := if is_bit un then 3 else 0) in *.
+  unfold spec_eval. rewrite (ex_magnitude _ _ _ _ _ _ _ _ _ _ HH0). change (beq sg [45%N]) with neg.
+  pose proof (ex_repr_n _ _ _ _ _ _ _ _ _ _ HH0) as Rn. unfold repr53b in Rn. apply Z.leb_le in Rn.
+  pose proof (odd_part_spec n) as Sn. destruct (odd_part n) as [qn jn]. destruct Sn as [Hjn [Hpn Hon]].
+  pose proof (odd_part_spec F) as Sf. pose proof HrF as RF. unfold repr53b in RF.
+  destruct (odd_part F) as [qf jf] eqn:EF. destruct Sf as [Hjf [Hpf Hof]]. cbn [fst snd] in *. apply Z.leb_le in RF.
+  destruct (ex_bounds _ _ _ _ _ _ _ _ _ _ HH0) as [Bn Bf]. pose proof (ex_prod _ _ _ _ _ _ _ _ _ _ HH0) as P. change (if is_bit un then 3 else 0) with k in P.
+  assert (Dn : dig n <= 56) by (apply dig_le_of_lt; lia).
+  assert (DF : dig F <= 56) by (apply dig_le_of_lt; lia).
+  assert (Dqn : dig n = dig qn + jn).
+  { rewrite <- (dig_shift qn jn Hjn). f_equal. rewrite <- Hpn. reflexivity. }
+  assert (Dqf : dig F = dig qf + jf).
+  { rewrite <- (dig_shift qf jf Hjf). f_equal. rewrite <- Hpf. reflexivity. }
+  pose proof (dig_pos qn). pose proof (dig_pos qf).
+  assert (Hk : 0 <= k) by (unfold k; destruct (is_bit un); lia).
+  (* the odd part of n * F against a * 2^k *)
+  assert (E0 : Zpos (qn * qf) * 2 ^ (jn + jf) = Zpos a * 2 ^ k).
+  { rewrite <- P, Hpn, Hpf, Pos2Z.inj_mul, Z.pow_add_r by lia. lia. }
+  assert (Ot : Z.odd (Zpos (qn * qf)) = true) by (rewrite Pos2Z.inj_mul, Z.odd_mul, Hon, Hof; reflexivity).
+  assert (Hjj : 0 <= jn + jf) by lia.
+  assert (Kle : k <= jn + jf) by (apply (odd_pow_div (Zpos (qn * qf)) (jn + jf) (Zpos a) k Ot Hjj Hk E0)).
+  assert (Ea : Zpos (qn * qf) * 2 ^ (jn + jf - k) = Zpos a).
+  { replace (jn + jf) with (jn + jf - k + k) in E0 by lia. rewrite Z.pow_add_r in E0 by lia.
+    pose proof (pow2_pos k Hk). nia. }
+  assert (Da : dig a <= 53) by (apply dig_le_of_lt; lia).
+  assert (Dsum : dig (qn * qf) + (jn + jf - k) = dig a).
+  { rewrite <- (dig_shift (qn * qf) (jn + jf - k)) by lia. f_equal. rewrite Ea. reflexivity. }
+  assert (Final : normal neg (qn * qf) (jn + jf - k) = float_of_small_int neg a).
+  { unfold float_of_small_int. rewrite <- (normal_scale neg (qn * qf) (jn + jf - k)) by lia.
+    rewrite Ea. reflexivity. }
+  (* the optional division by 8 *)
+  assert (M' : exists m', (if is_bit un then f_div_int (normal neg qn jn) 8 else Ok (normal neg qn jn)) = Ok m' /\
+                          m' = normal neg qn (jn - k)).
+  { unfold k. destruct (is_bit un).
+    - unfold f_div_int. rewrite float_of_8. unfold eight. rewrite div8_normal by lia. eauto.
+    - exists (normal neg qn jn). split; [reflexivity|]. f_equal. lia. }
+  destruct M' as [m' [-> ->]]. cbn [bind].
+  destruct pre as [|c p'] eqn:Epre.
+  - (* no prefix: F = 1 *)
+    assert (F1 : F = 1%positive) by (apply Pos2Z.inj; exact HF). subst F. change (Z.pos 1) with 1 in Hpf.
+    assert (qf = 1%positive /\ jf = 0).
+    { pose proof (Pos2Z.is_pos qf) as Pq.
+      destruct (Z.eq_dec jf 0) as [->|Nz]; [split; [|reflexivity]; change (2 ^ 0) with 1 in Hpf; lia|].
+      exfalso. assert (T2 : 2 ^ 1 <= 2 ^ jf) by (apply Z.pow_le_mono_r; lia). change (2 ^ 1) with 2 in T2.
+      set (X := 2 ^ jf) in *. clearbody X. nia. }
+    destruct H1 as [-> ->]. cbn [finish]. eexists. split; [reflexivity|].
+    rewrite <- Final. rewrite Pos.mul_1_r. f_equal. lia.
+  - unfold f_mul_int. rewrite <- HF.
+    assert (FF : float_of_Z (Zpos F) = Some (normal false qf jf)).
+    { unfold float_of_Z, f_normalize. cbn [binary_normalize]. change fprec with 53. change femax with 1024.
+      assert (DF2 : dig F <= 1024) by lia.
+      pose proof (round_odd_part false F HrF DF2) as R. rewrite EF in R. cbn [fst snd] in R. rewrite R. reflexivity. }
+    rewrite FF. cbn [bind finish]. eexists. split; [reflexivity|].
+    pose proof (dig_pos (qn * qf)).
+    assert (D3 : dig (qn * qf) <= 53) by (rewrite <- Dsum in Da; lia).
+    rewrite mul_normal by lia.
+    rewrite Bool.xorb_false_r, <- Final. f_equal. lia.
+Qed.
+
+Theorem exact_when_representable u prefixes sg ds pre un nl n F a :
+  exact_hyps u prefixes sg ds pre un nl n F a ->
+  string_to_bytes (sg ++ ds ++ pre ++ un ++ nl) u false = Ok (NFloat (float_of_small_int (beq sg [45%N]) a)) /\
+  string_to_bytes (sg ++ ds ++ pre ++ un ++ nl) u true = Ok (NInt (if beq sg [45%N] then Zneg a else Zpos a)).
+Proof.
+  intros HH. pose proof HH as HH0.
+  destruct HH as [HS [Hsg [Hds [Hne [Hpre [Hun [Hnl [Hn [HF [HrF [Hprod Ha]]]]]]]]]]].
+  assert (NF : numform (sg ++ ds)).
+  { exists sg, [], [], ds. repeat split; auto. apply c_digit_is_digit. exact Hds. }
+  assert (E1 : string_to_bytes (sg ++ ds ++ pre ++ un ++ nl) u false = Ok (NFloat (float_of_small_int (beq sg [45%N]) a))).
+  { rewrite app_assoc. rewrite (string_to_bytes_eval u prefixes HS (sg ++ ds) pre un nl false NF Hpre Hun Hnl).
+    destruct (ex_result _ _ _ _ _ _ _ _ _ _ HH0) as [r [Hr ->]]. exact Hr. }
+  split; [exact E1|].
+  rewrite return_int_is_ceil, E1. unfold float_of_small_int.
+  assert (Da : dig a <= 53) by (apply dig_le_of_lt; lia).
+  rewrite ceil_normal by lia. cbn [bind]. f_equal. f_equal.
+  change (2 ^ 0) with 1. destruct (beq sg [45%N]); lia.
+Qed.
+
+(* instances of the hypotheses (non-vacuity) *)
+Example exact_3KiB : exact_hyps (lit "IEC") iec_prefixes [] (lit "3") (lit "Ki") (lit "B") [] 3 1024 3072.
+Proof. unfold exact_hyps. repeat split; try reflexivity; try (vm_compute; tauto); try (vm_compute; congruence). Qed.
+Example exact_minus_16Mbit_SI : exact_hyps (lit "SI") si_prefixes (lit "-") (lit "16") (lit "M") (lit "bit") [10%N] 16 1000000 2000000.
+Proof. unfold exact_hyps. repeat split; try reflexivity; try (vm_compute; tauto); try (vm_compute; congruence). Qed.
+Example exact_big_bits : exact_hyps (lit "mixed") mixed_prefixes [] (lit "72057594037927928") [] (lit "b") [] 72057594037927928 1 9007199254740991.
+Proof. unfold exact_hyps. repeat split; try reflexivity; try (vm_compute; tauto); try (vm_compute; congruence). Qed.
+Example exact_3KiB_value :
+  string_to_bytes (lit "3KiB") (lit "IEC") true = Ok (NInt 3072).
+Proof. exact (proj2 (exact_when_representable _ _ _ _ _ _ _ _ _ _ exact_3KiB)). Qed.
